@@ -75,6 +75,14 @@ def stepTok (n : Nat) (ps : Peers) (t : String) : Option (Peers × Option String
         else none
       | _, _ => none
     | _ => none
+  | 'n' :: r =>
+    -- message forged outside the peer's manager: nothing enters its registry
+    match (String.ofList r).splitOn ":" with
+    | [p, m] =>
+      match p.toNat?, parseMsg m with
+      | some p, some _ => if p < n then some (ps, none) else none
+      | _, _ => none
+    | _ => none
   | 'd' :: r =>
     match (String.ofList r).splitOn ":" with
     | [p, m, h] =>
